@@ -76,6 +76,23 @@ Prop_C03(S) == IsRecv(S) =>
   /\ (S.fired \ Swallowed # {} => ~S.ok)
   /\ (~S.ok => S.post = S.pre)
 
+(* C06 Actions run in payload order on the running amount; the final coin is forwarded *)
+HasActions(S) == HasPayload(S) /\ Len(S.in.acts) > 0
+\* what each action does to the coin it sees
+ActEffect(a, c) == IF ActOf(a.id) = "FEE" THEN [d |-> c.d, n |-> c.n - FeeTotal(c.n, a.fees)]
+                   ELSE [d |-> "uswap", n |-> c.n \div 2]
+Prop_C06(S) ==
+  /\ (IsOrbiterPacket(S) /\ S.in.mk = "PAYLOAD" /\ ParseOK(S.in) /\ RepeatsAction(S.in) => ~S.ok)
+  /\ (HasActions(S) /\ S.ok /\ S.hasTrace =>
+        LET t == S.perAction  n == Len(S.in.acts) IN
+        /\ Len(t) = n
+        /\ \A i \in 1..n : t[i].id = ActOf(S.in.acts[i].id) /\ ~t[i].err          \* payload order, each exactly once
+        /\ t[1].cin = [d |-> D(S), n |-> A(S)]                                    \* the first sees the delivered coin
+        /\ \A i \in 1..(n - 1) : t[i + 1].cin = t[i].cout                        \* each sees what its predecessor left
+        /\ \A i \in 1..n : t[i].cout = ActEffect(S.in.acts[i], t[i].cin)
+        /\ Len(S.req) = 1 /\ S.req[1].amt = t[n].cout.n                           \* the final coin is forwarded
+        /\ (S.req[1].route # "HYP" => S.req[1].denom = t[n].cout.d))
+
 (* C04 Fees are exact, computed on the incoming amount, and bounded *)
 HasFee(S) == HasPayload(S) /\ FeeActs(S) # {} /\ ~HasSwap(S)
 TheFee(S) == S.in.acts[CHOOSE i \in FeeActs(S) : TRUE]
@@ -112,8 +129,7 @@ Prop_C05(S) ==
         /\ Mask(S.req[1], S.fullReq) = Mask(ExpectedReq(S.in.fw, PostActionCoin(S)), S.fullReq))
   /\ (IsOrbiterPacket(S) /\ S.in.mk = "PAYLOAD" /\ (Unrouted(S.in) \/ Mismatch(S.in)) => ~S.ok)
   /\ (IsAdmin(S) /\ S.in.rpc = "ReplaceDepositForBurn" /\ S.in.signer = "AUTH" /\ S.fullReq =>
-        S.req = <<[BaseReq EXCEPT !.route = "CCTP_REPLACE", !.mint = S.in.fw.mint,
-                                  !.caller = S.in.fw.caller, !.denom = "NONE"]>>)
+        S.req = <<ReplaceReq(S.in)>>)
 
 (* C08 A paused protocol or destination is never forwarded to; others are unaffected *)
 Blocked(s, dst) == dst[1] \in s.pProto \/ dst \in s.pCC
@@ -175,7 +191,7 @@ Prop_C10(S) == IsAdmin(S) =>
   /\ ~S.panic
   /\ (~DenotesAuthority(S.in.signer) => ~S.ok /\ S.post = S.pre /\ S.req = <<>>)
   /\ (~S.ok => S.post = S.pre)
-  /\ (S.in.signer = "AUTH" /\ ValidContent(S.pre, S.in) => S.ok)
+  /\ (S.in.signer = "AUTH" /\ ValidContent(S.pre, S.in) /\ S.fired = {} => S.ok)     \* (no injected failure)
 
 (* C11 Coins already on the orbiter account never alter, fund or block a transfer *)
 Prop_C11(S) == IsOrbiterPacket(S) /\ ~S.panic =>
